@@ -190,6 +190,17 @@ func oracleC04(x *Ctx, in Input, a *Analysis, c Cfg, r *Res) {
 		return
 	}
 	ns := c.NS * math.Ldexp(1, c.Scale)
+	// "same band" is read off equal Y. With LayerSpacing = 0 and a band of zero height two consecutive bands
+	// legitimately share their Y (see C03), so equal Y identifies a band only if that cannot happen.
+	bandsDistinct := c.LS > 0
+	if !bandsDistinct {
+		bandsDistinct = true
+		for _, nd := range v.node {
+			if nd.H <= 0 {
+				bandsDistinct = false
+			}
+		}
+	}
 	for i, nd := range v.node {
 		if !finite(nd.X) || !finite(nd.Y) || nd.X < 0 || nd.Y < 0 {
 			x.Violate("C04:coords", &c, nil, fmt.Sprintf("node %q has coordinates (%g,%g)", in.Name(i), nd.X, nd.Y))
@@ -205,7 +216,7 @@ func oracleC04(x *Ctx, in Input, a *Analysis, c Cfg, r *Res) {
 			}
 			gap := math.Max(q.X-(p.X+p.W), p.X-(q.X+q.W))
 			if a.Comp[i] == a.Comp[j] {
-				if p.Y == q.Y && gap < ns {
+				if bandsDistinct && p.Y == q.Y && gap < ns {
 					x.Violate("C04:spacing", &c, nil, fmt.Sprintf("nodes %q and %q of the same band are %g apart, NodeSpacing=%g\n%s", in.Name(i), in.Name(j), gap, ns, describeLayout(r.L)))
 					return
 				}
@@ -313,15 +324,16 @@ func oracleC06(x *Ctx, in Input, a *Analysis, c Cfg, r *Res) (long int) {
 						}
 					}
 					if c.Virt {
-						found := false
+						// the helper node of a bend: same x, in the band the bend lies in (the closest band top at or above the bend)
+						best := -1
 						for k, nd := range v.extra {
-							if !usedExtra[k] && nd.X+nd.W/2 == p[0] && p[1] >= nd.Y {
-								usedExtra[k] = true
-								found = true
-								break
+							if !usedExtra[k] && nd.X+nd.W/2 == p[0] && p[1] >= nd.Y && (best < 0 || nd.Y > v.extra[best].Y) {
+								best = k
 							}
 						}
-						if !found {
+						if best >= 0 {
+							usedExtra[best] = true
+						} else {
 							x.Violate("C06:virtual-node-at-bend", &c, nil, fmt.Sprintf("no output virtual node at bend %v of %s->%s\n%s", p, e.FromID, e.ToID, describeLayout(r.L)))
 						}
 					}
